@@ -250,11 +250,8 @@ func objsTerm(os []oObject) string {
 
 // ---------- generators ----------
 
-var idlKeywordPrefixes = []string{"int8", "uint8", "int16", "uint16", "int32", "uint32", "int64", "uint64", "float32", "float64",
-	"bool", "str", "obj", "any", "unknown"}
-
 func safeStructName(n string) bool {
-	for _, k := range idlKeywordPrefixes {
+	for _, k := range idlBasicNames {
 		if strings.HasPrefix(n, k) {
 			return false
 		}
@@ -270,6 +267,142 @@ func safeStructName(n string) bool {
 type structPool struct {
 	defs  []*gty
 	names map[string]bool
+}
+
+// ---------- identifier vocabulary ----------
+// Names are drawn not only from random identifiers but also from the words that are special
+// somewhere between GenerateIDL and ParseIDL: the words that structure an IDL file, the names of
+// the basic IDL types and containers, the names the generator itself invents (P0, param, uid),
+// the words signature.CleanVarName renames (Go keywords, error, string), Go predeclared names,
+// and variations of all of these (other case, a character more or less, an underscore in front).
+// The property quantifies over identifiers: none of these words is an exception.
+var idlKeywords = []string{"package", "interface", "struct", "enum", "fn", "sig", "prop", "end"}
+var idlBasicNames = []string{"int8", "uint8", "int16", "uint16", "int32", "uint32", "int64", "uint64", "float32", "float64",
+	"bool", "str", "obj", "any", "unknown", "nothing"}
+var idlOtherWords = []string{"Vec", "Map", "Tuple", "uid", "param", "P0", "P1", "registerEvent", "o", "v", "I", "T"}
+var goWords = []string{"break", "default", "func", "select", "case", "defer", "go", "map", "chan", "else", "goto", "switch", "const",
+	"fallthrough", "if", "range", "type", "continue", "for", "import", "return", "var", "error", "string",
+	"nil", "true", "false", "int", "len", "make", "iota", "byte", "float", "double", "void", "list", "value", "object"}
+var c18Vocab = func() []string {
+	var v []string
+	v = append(v, idlKeywords...)
+	v = append(v, idlKeywords...) // the words of the IDL itself twice as often
+	v = append(v, idlBasicNames...)
+	v = append(v, idlOtherWords...)
+	v = append(v, goWords...)
+	v = append(v, idlNearWords...)
+	return v
+}()
+
+// words that merely begin or end like a keyword or a basic type name
+var idlNearWords = []string{"endpoint", "ending", "backend", "signal", "property", "properties", "structure", "enumeration", "fnord", "defn",
+	"packages", "interfaces", "strange", "boolean", "anything", "objects", "integer", "substr", "Vector", "Mapping", "Tuples", "uid0", "param1", "P"}
+
+// c18Words: every vocabulary word once, the IDL's own words also in other case (the deterministic sweep)
+var c18Words = func() []string {
+	var v []string
+	v = append(v, idlKeywords...)
+	v = append(v, idlBasicNames...)
+	v = append(v, idlOtherWords...)
+	v = append(v, goWords...)
+	v = append(v, idlNearWords...)
+	for _, w := range idlKeywords {
+		v = append(v, strings.ToUpper(w[:1])+w[1:], strings.ToUpper(w))
+	}
+	for _, w := range []string{"int32", "str", "any", "obj", "bool", "nothing", "vec", "map", "tuple"} {
+		v = append(v, strings.ToUpper(w[:1])+w[1:], strings.ToUpper(w))
+	}
+	seen := map[string]bool{}
+	var u []string
+	for _, w := range v {
+		if !seen[w] {
+			seen[w] = true
+			u = append(u, w)
+		}
+	}
+	return u
+}()
+
+type nameRole int
+
+const (
+	rolePkg    nameRole = iota // package name
+	roleItf                    // interface name
+	roleAction                 // method / signal / property name
+	roleParam                  // parameter name
+	roleStruct                 // struct name (the part before <)
+	roleMember                 // struct member name, template argument
+)
+
+// underscoreFirst: names of these roles are matched by `[_A-Za-z][0-9a-zA-Z_]*` only; struct and
+// member names also pass the signature grammar, which wants a letter first
+func (r nameRole) underscoreFirst() bool { return r != roleStruct && r != roleMember }
+
+func isBasicIdlName(n string) bool {
+	for _, k := range idlBasicNames {
+		if n == k {
+			return true
+		}
+	}
+	return false
+}
+
+// genIdlName draws an identifier for the given role: a vocabulary word, a variation of one, an
+// identifier of a particular shape (upper-case first letter, digits, underscores), or genIdent
+func genIdlName(rng *hx.Rng, role nameRole) string {
+	r := rng.Intn(100)
+	switch {
+	case r < 20:
+		return c18Vocab[rng.Intn(len(c18Vocab))]
+	case r < 30:
+		w := c18Vocab[rng.Intn(len(c18Vocab))]
+		switch rng.Intn(8) {
+		case 0:
+			return strings.ToUpper(w[:1]) + w[1:]
+		case 1:
+			return strings.ToUpper(w)
+		case 2:
+			return w + strconv.Itoa(rng.Intn(10))
+		case 3:
+			return w + "_"
+		case 4:
+			return w + string(alpha[rng.Intn(len(alpha))])
+		case 5:
+			if len(w) > 1 {
+				return w[:len(w)-1]
+			}
+			return w
+		case 6:
+			if role.underscoreFirst() {
+				return "_" + w
+			}
+			return w + "_" + w
+		default:
+			return w + c18Vocab[rng.Intn(len(c18Vocab))]
+		}
+	case r < 38:
+		switch rng.Intn(6) {
+		case 0:
+			return string(alpha[26+rng.Intn(26)]) + genIdent(rng)
+		case 1:
+			return genIdent(rng) + strconv.Itoa(rng.Intn(1000))
+		case 2:
+			return genIdent(rng) + "_" + genIdent(rng)
+		case 3:
+			if role.underscoreFirst() {
+				return "_" + strings.Repeat("_", rng.Intn(3)) + strconv.Itoa(rng.Intn(100))
+			}
+			return string(alpha[rng.Intn(len(alpha))]) + "__" + strconv.Itoa(rng.Intn(100))
+		case 4:
+			if role.underscoreFirst() {
+				return strings.Repeat("_", 1+rng.Intn(3))
+			}
+			return string(alpha[26+rng.Intn(26)])
+		default:
+			return string(alpha[26+rng.Intn(26)]) + strconv.Itoa(rng.Intn(10)) + "_"
+		}
+	}
+	return genIdent(rng)
 }
 
 // genIdlType draws a type for the IDL round trip: no void, no empty tuple, structs only from the pool
@@ -304,12 +437,20 @@ func genIdlType(rng *hx.Rng, depth int, pool *structPool, key bool) *gty {
 	return t
 }
 
-func genPool(rng *hx.Rng, n int, reserved map[string]bool) *structPool {
+// plain: names are random identifiers only (the families built for one defect switch differ from
+// the safe ones in that one respect)
+func genPool(rng *hx.Rng, n int, reserved map[string]bool, plain bool) *structPool {
+	draw := func(role nameRole) string {
+		if plain {
+			return genIdent(rng)
+		}
+		return genIdlName(rng, role)
+	}
 	p := &structPool{names: map[string]bool{}}
 	for len(p.defs) < n {
-		name := genIdent(rng)
+		name := draw(roleStruct)
 		if rng.Chance(0.2) {
-			name += "<" + genIdent(rng) + ">"
+			name += "<" + draw(roleMember) + ">"
 		}
 		if !safeStructName(name) || p.names[name] || reserved[name] {
 			continue
@@ -321,7 +462,7 @@ func genPool(rng *hx.Rng, n int, reserved map[string]bool) *structPool {
 		}
 		seen := map[string]bool{}
 		for len(s.fields) < m {
-			f := genIdent(rng)
+			f := draw(roleMember)
 			if seen[f] {
 				continue
 			}
@@ -335,10 +476,20 @@ func genPool(rng *hx.Rng, n int, reserved map[string]bool) *structPool {
 	return p
 }
 
+// genPkgName: a package name is `[_A-Za-z][0-9a-zA-Z-._]*`
+func genPkgName(rng *hx.Rng) string {
+	n := genIdlName(rng, rolePkg)
+	for rng.Chance(0.15) {
+		n += string(".-_"[rng.Intn(3)]) + genIdlName(rng, roleMember)
+	}
+	return n
+}
+
 func tupleOf(ts ...*gty) *gty { return &gty{kind: 'T', elems: ts} }
 
 type genOpts struct {
 	uidZero, nonTuple bool
+	usedAct           map[string]bool // action names taken in the package; nil: plain names (genIdent), each with the marker
 }
 
 func genObject(rng *hx.Rng, name string, pool *structPool, marker string, o genOpts) oObject {
@@ -359,12 +510,26 @@ func genObject(rng *hx.Rng, name string, pool *structPool, marker string, o genO
 			}
 		}
 	}
-	actName := func(i int) string {
-		n := genIdent(rng)
-		if rng.Chance(0.1) {
-			n = "_" + n
+	// an action name is a drawn name as it is when no other action of the package has it (the order
+	// in which GenerateIDL wrote the interfaces is read back from the first action of each);
+	// otherwise the name is made unique by the marker
+	draw := func(role nameRole) string {
+		if o.usedAct == nil { // a family built for one defect switch: plain names
+			return genIdent(rng)
 		}
-		return fmt.Sprintf("%s%s%d", n, marker, i)
+		return genIdlName(rng, role)
+	}
+	actName := func(i int) string {
+		n := draw(roleAction)
+		if o.usedAct != nil && !o.usedAct[n] && rng.Chance(0.6) {
+			o.usedAct[n] = true
+			return n
+		}
+		n = fmt.Sprintf("%s%s%d", n, marker, i)
+		if o.usedAct != nil {
+			o.usedAct[n] = true
+		}
+		return n
 	}
 	nm, ns, np := rng.Intn(4), rng.Intn(3), rng.Intn(3)
 	if nm+ns+np == 0 {
@@ -387,9 +552,9 @@ func genObject(rng *hx.Rng, name string, pool *structPool, marker string, o genO
 			m.PNames = []string{}
 			seen := map[string]bool{}
 			for range ps {
-				n := genIdent(rng)
+				n := draw(roleParam)
 				for seen[n] {
-					n = genIdent(rng)
+					n = draw(roleParam)
 				}
 				seen[n] = true
 				m.PNames = append(m.PNames, n)
@@ -529,7 +694,9 @@ var idlVocab = []string{"interface", "struct", "enum", "end", "fn", "sig", "prop
 	"0", "7", "42", "-3", "4294967295", "4294967296", "99999999999999999999", "1_0", "\n", "\n", "\t", " ", "  ", "A<B>", "A<>", "end", "\n"}
 
 func runC18(res *hx.Result, rng *hx.Rng, tier string, outdir string) {
-	res.Rule = "round trip: packages of 1-3 generated meta-objects (methods/signals/properties with distinct uids, identifiers as names, " +
+	res.Rule = "round trip: packages of 1-3 generated meta-objects (methods/signals/properties with distinct uids; package, interface, action, parameter, " +
+		"struct and member names drawn from random identifiers and from the vocabulary of the pipeline: IDL keywords, basic type and container names, " +
+		"Go keywords and predeclared names, variations in case / one character more or less / underscores / digits, and every vocabulary word once in every role; " +
 		"signatures over scalars, lists, maps, tuples and a pool of named structs shared between actions and nested in containers) through " +
 		"GenerateIDL and ParseIDL; parser: the generated texts, mutations of them (character and token level), token soup over the IDL vocabulary, " +
 		"hand-written corner texts; non-trivial = a struct is used by >= 2 actions or nested in a container, or the text is a mutation; " +
@@ -567,17 +734,18 @@ func runC18(res *hx.Result, rng *hx.Rng, tier string, outdir string) {
 		reserved := map[string]bool{}
 		var names []string
 		for len(names) < nobj {
-			n := genIdent(rng)
+			n := genIdlName(rng, roleItf)
 			if reserved[n] {
 				continue
 			}
 			reserved[n] = true
 			names = append(names, n)
 		}
-		pool := genPool(rng, rng.Intn(5), reserved)
-		c := rtCase{pkg: genIdent(rng)}
+		pool := genPool(rng, rng.Intn(5), reserved, false)
+		c := rtCase{pkg: genPkgName(rng)}
+		usedAct := map[string]bool{}
 		for k, n := range names {
-			c.objs = append(c.objs, genObject(rng, n, pool, fmt.Sprintf("_k%d_", k), genOpts{}))
+			c.objs = append(c.objs, genObject(rng, n, pool, fmt.Sprintf("_k%d_", k), genOpts{usedAct: usedAct}))
 		}
 		c.desc = fmt.Sprintf("safe objects=%d structs=%d", nobj, len(pool.defs))
 		c.nontr = len(pool.defs) > 0
@@ -590,8 +758,44 @@ func runC18(res *hx.Result, rng *hx.Rng, tier string, outdir string) {
 	obj1 := func(ms []oMethod, ss, ps []oSignal) oObject {
 		return oObject{Name: "I", Methods: ms, Signals: ss, Props: ps}
 	}
-	for _, n := range []string{"strange", "int8x", "boolean", "anything", "object", "unknownThing", "float32s", "uint64_t"} {
+	prefixed := []string{"strange", "int8x", "boolean", "anything", "object", "unknownThing", "float32s", "uint64_t", "string", "nothing_"}
+	for i := 0; i < 12; i++ { // a basic type name followed by one or more name characters
+		n := idlBasicNames[rng.Intn(len(idlBasicNames))] + string(alnum[rng.Intn(len(alnum))])
+		if rng.Bool() {
+			n += genIdlName(rng, roleMember)
+		}
+		prefixed = append(prefixed, n)
+	}
+	for _, n := range prefixed {
 		unsafe("keyword_prefix_struct_name", "struct named "+n, obj1([]oMethod{{Uid: 1, Name: "f", Params: "((i)<" + n + ",a>)", Ret: "v"}}, nil, nil))
+	}
+	// a struct named exactly as a basic IDL type: "P0: str" is the basic type
+	for _, n := range idlBasicNames {
+		unsafe("basic_type_struct_name", "struct named "+n, obj1([]oMethod{{Uid: 1, Name: "f", Params: "((i)<" + n + ",a>)", Ret: "v"}}, nil, nil))
+	}
+	// ---- vocabulary sweep: every word in every role ----
+	// A: the word is at once package, interface, method, signal, property, parameter and member name
+	// B: the word is a struct name, plain and as template name and argument (where such a struct
+	//    name is safe), and the struct is a member of another struct
+	for _, w := range c18Words {
+		sA := "(i[s])<Stru," + w + ",zz>"
+		cases = append(cases, rtCase{pkg: w, desc: "vocabulary " + w + " as package/interface/action/parameter/member name", nontr: true,
+			objs: []oObject{{Name: w,
+				Methods: []oMethod{{Uid: 5, Name: w, Params: "(" + sA + "i)", Ret: "[" + sA + "]", PNames: []string{w, "q"}}},
+				Signals: []oSignal{{Uid: 6, Name: w, Sig: "(" + sA + ")"}},
+				Props:   []oSignal{{Uid: 7, Name: w, Sig: "({s" + sA + "})"}}}}})
+		if isBasicIdlName(w) || !safeStructName(w) {
+			continue
+		}
+		s1 := "(i)<" + w + ",a>"
+		s2 := "(s" + s1 + ")<Outer,b,c>"
+		if t := w + "<" + w + ">"; safeStructName(t) {
+			s2 = "(s" + s1 + ")<" + t + ",b,c>"
+		}
+		cases = append(cases, rtCase{pkg: "p", desc: "vocabulary " + w + " as struct name", nontr: true,
+			objs: []oObject{{Name: "Itf",
+				Methods: []oMethod{{Uid: 1, Name: "f", Params: "(" + s1 + s2 + ")", Ret: "{s" + s2 + "}"}},
+				Signals: []oSignal{{Uid: 2, Name: "s", Sig: "([" + s1 + "])"}}}}})
 	}
 	unsafe("container_prefix_struct_name", "struct named Vec<T>", obj1([]oMethod{{Uid: 1, Name: "f", Params: "((i)<Vec<T>,a>)", Ret: "v"}}, nil, nil))
 	unsafe("container_prefix_struct_name", "struct named Tuple<T>", obj1([]oMethod{{Uid: 1, Name: "f", Params: "((i)<Tuple<T>,a>)", Ret: "v"}}, nil, nil))
@@ -616,7 +820,7 @@ func runC18(res *hx.Result, rng *hx.Rng, tier string, outdir string) {
 		desc: "registerEvent uid 0", nontr: true})
 	// random unsafe mixes
 	for i := 0; i < nRT/6; i++ {
-		pool := genPool(rng, 1+rng.Intn(3), map[string]bool{"I": true})
+		pool := genPool(rng, 1+rng.Intn(3), map[string]bool{"I": true}, true)
 		o := genOpts{uidZero: true}
 		known := "uid_zero"
 		if rng.Bool() {
@@ -833,7 +1037,7 @@ func runC18(res *hx.Result, rng *hx.Rng, tier string, outdir string) {
 			res.Fail("roundtrip", det)
 		}
 	}
-	for _, k := range []string{"keyword_prefix_struct_name", "container_prefix_struct_name", "colliding_struct_names", "non_tuple_signal_property",
+	for _, k := range []string{"keyword_prefix_struct_name", "basic_type_struct_name", "container_prefix_struct_name", "colliding_struct_names", "non_tuple_signal_property",
 		"uid_zero", "empty_tuple_or_void_in_container"} {
 		res.Switch(k, sw[k], detail[k])
 	}
